@@ -228,6 +228,8 @@ def check(col, prog, tier, profile, fixture=None):
         # closure captures -> outer parameters (n, m, i, j) = params 1..4
         names = {1: "n", 2: "m", 3: "i", 4: "j"}
 
+        rbind = {}
+
         def bind(clos_term):
             out = {}
             if clos_term[0] == "agg" and isinstance(clos_term[1], tuple) and clos_term[1][0] == "closure":
@@ -235,6 +237,11 @@ def check(col, prog, tier, profile, fixture=None):
                     p = _strip_cast(op)
                     if p[0] == "param":
                         out[k] = names.get(p[1], "?")
+                    # a captured range object `0..n as isize`
+                    if op[0] == "agg" and isinstance(op[1], tuple) and str(op[1][1]).endswith("ops::Range") and len(op[2]) == 2:
+                        hi = _strip_cast(op[2][1])
+                        if hi[0] == "param":
+                            rbind[k] = (op[2][0], names.get(hi[1], "?"))
             return out, clos_term[1][1] if clos_term[0] == "agg" else None
 
         fbind, fkey_ = bind(fl[0].args[1])
@@ -258,6 +265,8 @@ def check(col, prog, tier, profile, fixture=None):
                 return "d%s" % ("x" if t[1] == 0 else "y")
             if t[0] == "int":
                 return str(t[1])
+            if t[0] == "named":
+                return t[1]
             if t[0] == "bin" and t[1] == "Add":
                 return "+".join(sorted([sym(t[2]), sym(t[3])]))
             return tstr(t)
@@ -279,6 +288,10 @@ def check(col, prog, tier, profile, fixture=None):
                     if rg_[0] == "agg" and str(rg_[1][1]).endswith("ops::Range"):
                         terms.append((("bin", "Ge", x_, rg_[2][0]), True))
                         terms.append((("bin", "Lt", x_, rg_[2][1]), True))
+                    elif args_[0][0] == "ref" and args_[0][1][0] == "field" and args_[0][1][1][0] == "deref" and args_[0][1][2] in rbind:
+                        lo_, hiname = rbind[args_[0][1][2]]
+                        terms.append((("bin", "Ge", x_, lo_), True))
+                        terms.append((("bin", "Lt", x_, ("named", hiname)), True))
             for (c, truth) in terms:
                 op = c[1] if truth else {"Lt": "Ge", "Le": "Gt", "Gt": "Le", "Ge": "Lt"}[c[1]]
                 a_, b_ = sym(c[2]), sym(c[3])
@@ -320,6 +333,7 @@ def check(col, prog, tier, profile, fixture=None):
             col.violation("I5", key, mb.loc(), "%s must yield (i+dx, j+dy)" % fn)
 
     # ---------------- I6
+    FLAG0 = [("first", mk_int(1))]   # (name of the bool field, its value before the first item is yielded)
     b = util.need_body(crate, "permutations::iter_permutations")
     I = util.analyse(b)
     for st in I.final_states:
@@ -329,29 +343,34 @@ def check(col, prog, tier, profile, fixture=None):
         ok = bool(srt) and r[0] == "agg" and isinstance(r[1], tuple) and r[1][0] == "adt" and r[1][1].endswith("PermutationIter")
         if ok:
             flds = dict(zip(r[1][4], r[2]))
-            ok = flds.get("first") == mk_int(1) and flds.get("data") is not None and flds["data"][0] == "out"
+            flagn = [k_ for k_, v_ in flds.items() if v_ in (mk_int(0), mk_int(1))]
+            ok = len(flagn) == 1 and flds.get("data") is not None and flds["data"][0] == "out"
+            if ok:
+                FLAG0[0] = (flagn[0], flds[flagn[0]])
         key = "%s|sort-then-iter" % fk(b)
         if ok:
-            col.ok("I6", b.loc(), key, "data.sort(); PermutationIter { data, first: true }")
+            col.ok("I6", b.loc(), key, "data.sort(); PermutationIter { data, <not yet started> }")
         else:
-            col.violation("I6", key, b.loc(), "iter_permutations must sort the data before constructing the iterator with first = true: otherwise arrangements before the input's are skipped")
+            col.violation("I6", key, b.loc(), "iter_permutations must sort the data before constructing the iterator in its not-yet-started state: otherwise arrangements before the input's are skipped")
     _next_permutation_anatomy(col, crate)
     nb = util.need_body(crate, "<permutations::PermutationIter<T> as std::iter::Iterator>::next")
     npb = util.need_body(crate, "permutations::next_permutation")
     I = util.analyse(nb)
     adt = util.need_adt(crate, "PermutationIter")
     fn_ = [f["name"] for f in util.fields_of(adt)]
-    FIRST, DATA = fn_.index("first"), fn_.index("data")
+    FIRST, DATA = fn_.index(FLAG0[0][0]), fn_.index("data")
+    V0 = FLAG0[0][1]
+    V1 = mk_int(1 - V0[1])
     selfp = ("deref", ("param", 1, I.names.get(1)))
     seen = {}
     for st in I.final_states:
         r = util.ret_term(st)
-        first = ("eq", ("load", ("m0",), ("field", selfp, FIRST)), 1) in st.facts
+        first = ("eq", ("load", ("m0",), ("field", selfp, FIRST)), V0[1]) in st.facts
         evs = st.event_list()
         npc = [e for e in evs if e.kind == "call" and (e.fn.get("resolved") or e.fn).get("def") == npb.key]
         is_some = r[0] == "agg" and r[1][3] == "Some"
         if first:
-            ok = is_some and not npc and any(e.kind == "store" and e.place == ("field", selfp, FIRST) and e.val == mk_int(0) for e in evs) and r[2][0][0] == "load" and r[2][0][2] == ("field", selfp, DATA)
+            ok = is_some and not npc and any(e.kind == "store" and e.place == ("field", selfp, FIRST) and e.val == V1 for e in evs) and r[2][0][0] == "load" and r[2][0][2] == ("field", selfp, DATA)
             seen["first"] = ok
         else:
             stepped = None
@@ -376,12 +395,48 @@ def _next_permutation_anatomy(col, crate):
     tail that is not sorted after the reversal and skips arrangements"""
     fk = util.fkey
     b = util.need_body(crate, "permutations::next_permutation")
-    I = util.analyse(b)
+    free = [f_ for f_ in crate.bodies if not f_.is_closure and f_.kind == "Fn" and f_.container is None and f_.vis != "pub" and not util.self_recursive(f_) and f_.key != b.key]
+    I = util.analyser(free)(b)
     datap = ("deref", ("param", 1, I.names.get(1)))
     LEN = ("len", ("load", ("m0",), datap))
 
+    def found_by_rev_find(i_el, evs_=()):
+        """i_el is the payload of (1..len).rev().find(|&i| data[i-1] < data[i]): the rightmost ascent"""
+        if not (i_el[0] == "proj" and i_el[1] == 0 and i_el[2][0] == "down" and i_el[2][1][0] == "call" and str(i_el[2][1][1]).endswith("::find")):
+            return False
+        fc = i_el[2][1]
+        args = [x for x in fc[2] if not (isinstance(x, tuple) and x and x[0] == "mem")]
+        recv = args[0]
+        rv = recv[1][1] if recv[0] == "ref" and recv[1][0] == "constval" else recv
+        for e_ in evs_:
+            if e_.res == fc and (e_.extra.get("argvals") or [None])[0] is not None:
+                rv = e_.extra["argvals"][0]
+        is_rev_range = any(x[0] == "rangeiter" and x[1] == mk_int(1) and x[2] == LEN and x[3] == "rev" for x in [rv] + list(subterms(rv))) or any(x[0] == "call" and str(x[1]).endswith("::rev") and any(y[0] == "agg" and str(y[1][1]).endswith("ops::Range") and y[2] == (mk_int(1), LEN) for y in subterms(x)) for x in [rv] + list(subterms(rv)))
+        clo = [x for x in args if isinstance(x, tuple) and x and x[0] == "agg" and isinstance(x[1], tuple) and x[1][0] == "closure"]
+        if not is_rev_range or not clo:
+            return False
+        cb = crate.by_key.get(clo[0][1][1])
+        if cb is None:
+            return False
+        Ic = util.analyse(cb)
+        okc = bool(Ic.final_states)
+        for fs in Ic.final_states:
+            r = util.ret_term(fs)
+            if not (r[0] == "call" and str(r[1]).endswith("PartialOrd::lt")):
+                okc = False
+                continue
+            a0, a1 = r[2][0], r[2][1]
+            i0 = a0[1][2] if a0[0] == "ref" and a0[1][0] == "index" else None
+            i1 = a1[1][2] if a1[0] == "ref" and a1[1][0] == "index" else None
+            okc = okc and i0 is not None and i1 is not None and i0 == ("bin", "Sub", i1, mk_int(1))
+        return okc
+
+    from ..absint import _canon_closures as _cc
+
+    from ..absint import strip_mem as _sm
+
     def at(idx, t):
-        return t == ("ref", ("index", datap, idx))
+        return _sm(_cc(t)) == _sm(_cc(("ref", ("index", datap, idx))))
 
     ok_wrap = ok_swap = ok_scan = ok_outer = False
     why = []
@@ -402,17 +457,28 @@ def _next_permutation_anatomy(col, crate):
         j_t = sw[0].args[2]
         # pivot index is i-1 for the loop element i of (1..len).rev()
         piv_ok = i_t[0] == "bin" and i_t[1] == "Sub" and i_t[3] == mk_int(1) and i_t[2][0] == "elem"
-        if not piv_ok:
+        by_find = (not piv_ok) and i_t[0] == "bin" and i_t[1] == "Sub" and i_t[3] == mk_int(1) and found_by_rev_find(i_t[2], evs)
+        if by_find:
+            i_el = i_t[2]
+            ok_outer = True
+            tail = rv[0].args[0]
+            tail_ok = tail[0] == "ref" and tail[1][0] == "range" and tail[1][1] == datap and tail[1][2][0] == "agg" and tail[1][2][1][1].endswith("RangeFrom") and tail[1][2][2] == (i_el,)
+            ok_swap = tail_ok and evs.index(sw[0]) < evs.index(rv[0])
+            if not ok_swap:
+                why.append("swap, then reverse data[i..] expected")
+        elif not piv_ok:
             why.append("swap's first index is %s, expected i-1" % tstr(i_t))
             continue
-        i_el = i_t[2]
-        ok_outer = i_el[2] == mk_int(1) and i_el[3] == LEN and any(isinstance(v, tuple) and v and v[0] == "rangeiter" and v[3] == "rev" for v in st.env.values())
-        asc = any(f[0] == "eq" and f[2] == 1 and isinstance(f[1], tuple) and f[1][0] == "call" and str(f[1][1]).endswith("PartialOrd::lt") and at(i_t, f[1][2][0]) and at(i_el, f[1][2][1]) for f in st.facts)
-        tail = rv[0].args[0]
-        tail_ok = tail[0] == "ref" and tail[1][0] == "range" and tail[1][1] == datap and tail[1][2][0] == "agg" and tail[1][2][1][1].endswith("RangeFrom") and tail[1][2][2] == (i_el,)
-        ok_swap = asc and tail_ok and evs.index(sw[0]) < evs.index(rv[0])
-        if not ok_swap:
-            why.append("ascent test data[i-1] < data[i], swap, then reverse data[i..] expected")
+        if not by_find:
+          i_el = i_t[2]
+          ok_outer = i_el[2] == mk_int(1) and i_el[3] == LEN and any(isinstance(v, tuple) and v and v[0] == "rangeiter" and v[3] == "rev" for v in st.env.values())
+        if not by_find:
+            asc = any(f[0] == "eq" and f[2] == 1 and isinstance(f[1], tuple) and f[1][0] == "call" and str(f[1][1]).endswith("PartialOrd::lt") and at(i_t, f[1][2][0]) and at(i_el, f[1][2][1]) for f in st.facts)
+            tail = rv[0].args[0]
+            tail_ok = tail[0] == "ref" and tail[1][0] == "range" and tail[1][1] == datap and tail[1][2][0] == "agg" and tail[1][2][1][1].endswith("RangeFrom") and tail[1][2][2] == (i_el,)
+            ok_swap = asc and tail_ok and evs.index(sw[0]) < evs.index(rv[0])
+            if not ok_swap:
+                why.append("ascent test data[i-1] < data[i], swap, then reverse data[i..] expected")
         # the partner: loop variable of a forward scan from i while data[j+1] > data[i-1]
         if j_t[0] == "phi":
             head, jl = j_t[1], j_t[2]
@@ -423,7 +489,7 @@ def _next_permutation_anatomy(col, crate):
                 nj = bs.env.get(jl)
                 gt = any(f[0] == "eq" and f[2] == 1 and isinstance(f[1], tuple) and f[1][0] == "call" and str(f[1][1]).endswith("PartialOrd::gt") and at(("bin", "Add", j_t, mk_int(1)), f[1][2][0]) and at(i_t, f[1][2][1]) for f in bs.facts)
                 lt_rev = any(f[0] == "eq" and f[2] == 1 and isinstance(f[1], tuple) and f[1][0] == "call" and str(f[1][1]).endswith("PartialOrd::lt") and at(i_t, f[1][2][0]) and at(("bin", "Add", j_t, mk_int(1)), f[1][2][1]) for f in bs.facts)
-                inb = any(f[0] == "eq" and f[2] == 1 and f[1] == ("bin", "Lt", ("bin", "Add", j_t, mk_int(1)), LEN) for f in bs.facts)
+                inb = any(f[0] == "eq" and f[2] == 1 and _sm(_cc(f[1])) == _sm(_cc(("bin", "Lt", ("bin", "Add", j_t, mk_int(1)), LEN))) for f in bs.facts)
                 step_ok = nj == ("bin", "Add", j_t, mk_int(1)) and (gt or lt_rev) and inb
             ok_scan = scan_from_i and step_ok
             if not ok_scan:
